@@ -89,3 +89,128 @@ def run(chk, prog, units):
     else:
         chk.instance(R, 'centred matrices tracked through %d function(s); %d column-mean computation(s) on them examined' % (sum(1 for v in centred.values() if v), n))
     return n
+
+
+def null_components(chk, prog):
+    """C18, second clause, structural part: a NIPALS routine that can leave its iteration through an `is NaN` exit (a null component) must
+    not let that NaN reach the stored model or the residual: between the exit and the stores there is a branch on `_isnan_` that zeroes every
+    vector which is subsequently stored / copied out, and calcVarExpressed does not divide by a zero total variance."""
+    R = chk.rule('DG.null-component', 'after an `is NaN` exit of a NIPALS iteration every vector stored to the model or copied to the caller is zeroed '
+                 'under an `_isnan_` test first (a null component is stored as zeros and the residual stays finite); the explained variance is not '
+                 'computed as x/0 when the total variance is zero')
+    targets = {'PCA': ('pca.c', None), 'LVCalc': ('pls.c', None)}
+    for name in targets:
+        f = prog.funcs.get(name)
+        if f is None or f.body is None:
+            chk.broke('%s not found' % name)
+            continue
+        nan_exits = []
+        for n in walk(f.body):
+            if n.get('kind') == 'IfStmt':
+                c = kids(n)[0]
+                if _has_nan_test(c) and any(x.get('kind') == 'BreakStmt' for x in walk(kids(n)[1])):
+                    nan_exits.append(n)
+        if not nan_exits:
+            chk.instance(R, '%s %s: no `is NaN` exit in the iteration (termination on a null component is C18/L.terminates)' % (f.where, name), 'undecided')
+            continue
+        # sanitising branches: if(_isnan_(..) ...) { DVectorSet(v, 0) ...; scalar = 0 }
+        zeroed = set()
+        san = None
+        for n in walk(f.body):
+            if n.get('kind') != 'IfStmt':
+                continue
+            c = kids(n)[0]
+            if not _has_nan_test(c):
+                continue
+            then = kids(n)[1]
+            zs = set()
+            only_zeroing = True
+            for st in (kids(then) if then.get('kind') == 'CompoundStmt' else [then]):
+                s0 = strip(st)
+                if s0.get('kind') == 'CallExpr' and callee_name(s0) in ('DVectorSet', 'MatrixSet') and _lit0(call_args(s0)[1]):
+                    zs.add(base_name(call_args(s0)[0]))
+                elif s0.get('kind') == 'BinaryOperator' and s0.get('opcode') == '=' and _lit0(kids(s0)[1]):
+                    zs.add(base_name(kids(s0)[0]))
+                else:
+                    only_zeroing = False
+            if zs and only_zeroing:
+                zeroed |= zs
+                san = san or n
+        # vectors handed out after the exit: stores into model->X / copies to parameters
+        pn = {p.get('name') for p in f.params}
+        handed = set()
+        for n in walk(f.body):
+            if n.get('kind') == 'CallExpr' and callee_name(n) == 'DVectorCopy':
+                a = call_args(n)
+                if base_name(a[1]) in pn:
+                    handed.add(base_name(a[0]))
+            if n.get('kind') == 'BinaryOperator' and n.get('opcode') == '=':
+                l = exprs.text_key(kids(n)[0])
+                r = strip(kids(n)[1])
+                if '->data[' in l and l.split('->')[0] in pn | {'model'} and r.get('kind') == 'ArraySubscriptExpr' and fe.is_float_type(r):
+                    bn = base_name(kids(strip(kids(r)[0]))[0]) if strip(kids(r)[0]).get('kind') == 'MemberExpr' else None
+                    if bn and bn not in pn:
+                        handed.add(bn)
+        missing = sorted(h for h in handed if h not in zeroed)
+        if san is None:
+            chk.instance(R, '%s %s: the iteration can leave through an `is NaN` exit but nothing resets the NaN vectors' % (f.unit.where(nan_exits[0]), name), 'refuted')
+            chk.violation(Finding('DG.null-component', rel(f.file), name, 'no-sanitise', f.unit.where(nan_exits[0]),
+                                  '%s leaves its iteration when the convergence criterion is NaN (null component) and then stores / deflates with the '
+                                  'NaN vectors %s: the residual becomes NaN and every later component and its explained variance is NaN instead of 0'
+                                  % (name, sorted(handed))))
+        elif missing:
+            chk.instance(R, '%s %s: `%s` handed out after an `is NaN` exit without being zeroed' % (f.unit.where(san), name, ', '.join(missing)), 'refuted')
+            chk.violation(Finding('DG.null-component', rel(f.file), name, 'partial:%s' % ','.join(missing), f.unit.where(san),
+                                  '%s zeroes %s for a null component but also hands out %s, which may still hold NaN' % (name, sorted(zeroed), missing)))
+        else:
+            chk.instance(R, '%s %s: a null component (`is NaN` exit) is stored as zeros: %s zeroed before being handed out' %
+                         (f.unit.where(san), name, ', '.join(sorted(handed))))
+    # calcVarExpressed
+    g = prog.funcs.get('calcVarExpressed')
+    if g is None or g.body is None:
+        chk.broke('calcVarExpressed not found')
+        return
+    ssn = g.params[0].get('name')
+    from . import flow as _flow
+    pm = _flow.parent_map(g.body)
+    divs = [n for n in walk(g.body) if n.get('kind') == 'BinaryOperator' and n.get('opcode') == '/' and base_name(kids(n)[1]) == ssn]
+    if not divs:
+        chk.broke('calcVarExpressed: no division by the total sum of squares found')
+        return
+    for d in divs:
+        guarded = False
+        child = d
+        for anc in _flow.ancestors(pm, d):
+            if anc.get('kind') == 'IfStmt':
+                c = strip(kids(anc)[0])
+                names = {y['referencedDecl'].get('name') for y in walk(c) if y.get('kind') == 'DeclRefExpr'}
+                if ssn in names and c.get('kind') == 'BinaryOperator' and c.get('opcode') in ('>', '!=', '<'):
+                    guarded = True
+            child = anc
+        if guarded:
+            chk.instance(R, '%s calcVarExpressed: the division by the total variance is guarded by a test on it' % g.unit.where(d))
+        else:
+            chk.instance(R, '%s calcVarExpressed divides by the total variance unguarded' % g.unit.where(d), 'refuted')
+            chk.violation(Finding('DG.null-component', rel(g.file), g.name, 'div-by-ss', g.unit.where(d),
+                                  'calcVarExpressed computes eigenvalue / total-sum-of-squares without testing the total: for data without any variance '
+                                  '(rank 0) every explained variance is 0/0 = NaN instead of 0'))
+
+
+def _has_nan_test(c):
+    """_isnan_(a) is the macro (a != a); also accept calls of isnan / _isnan_"""
+    for x in walk(c):
+        if x.get('kind') == 'BinaryOperator' and x.get('opcode') == '!=' and exprs.text_key(kids(x)[0]) == exprs.text_key(kids(x)[1]):
+            return True
+        if x.get('kind') == 'CallExpr' and callee_name(x) in ('_isnan_', 'isnan', '__builtin_isnan'):
+            return True
+    return False
+
+
+def _lit0(n):
+    v = strip(n)
+    if v.get('kind') == 'UnaryOperator' and v.get('opcode') in ('+', '-'):
+        v = strip(kids(v)[0])
+    try:
+        return v.get('kind') in ('FloatingLiteral', 'IntegerLiteral') and float(v.get('value')) == 0.0
+    except ValueError:
+        return False
